@@ -17,6 +17,9 @@ KINDS = ['add', 'add', 'remove', 'dispatch', 'dispatch', 'dispatch', 'ishandler'
 def generate(rng, tier):
     n = 400 if tier == 'quick' else 8000
     for i in range(n):
+        if i % 8 == 5:
+            yield gen_disp.gen_churn(rng)
+            continue
         lines, objs, mapping_of = gen_disp.gen_universe(rng)
         # one scenario in four also switches dispatching off and on again (from the top level and from
         # inside callbacks, which may raise half-way through a release): "while dispatching is enabled"
@@ -29,7 +32,9 @@ def generate(rng, tier):
         for o in objs:
             if rng.random() < 0.7:
                 lines.append(f'op add {o}')
-        kinds = KINDS + (['enable', 'enable'] if toggles else [])
+        # (one scenario in four: the program also lets handlers go — a handler created later may get the
+        # address of a dead one)
+        kinds = KINDS + (['enable', 'enable'] if toggles else []) + (['drop', 'drop'] if i % 4 == 2 else [])
         for _ in range(rng.randint(1, 25)):
             lines.append('op ' + gen_disp.gen_op(rng, objs, kinds))
         if toggles:
